@@ -282,10 +282,21 @@ func (os *OutputStream) GetNext(ctx context.Context, lastseen robust.Id) []Messa
 	os.messagesMu.RUnlock()
 
 	// Wait until a new message appears.
+	waitBehind := uint64(current.Messages[0].Id.Id)
 	os.messagesMu.Lock()
 	for {
-		current, _ = os.getUnlocked(uint64(current.Messages[0].Id.Id))
-		next, ok := os.getUnlocked(current.NextID)
+		var next *messageBatch
+		current, ok = os.getUnlocked(waitBehind)
+		if ok {
+			next, ok = os.getUnlocked(current.NextID)
+		}
+		if !ok || uint64(next.Messages[0].Id.Id) <= uint64(lastseen.Id) {
+			// Following the NextID chain is not possible (or not useful):
+			// the message we are waiting behind, or its successor, was
+			// deleted in the meantime, or lastseen is newer than the most
+			// recent message. Look for anything newer than lastseen instead.
+			next, ok = os.firstAfterLocked(uint64(lastseen.Id))
+		}
 		if ok {
 			os.messagesMu.Unlock()
 			return next.Messages
@@ -298,6 +309,25 @@ func (os *OutputStream) GetNext(ctx context.Context, lastseen robust.Id) []Messa
 		}
 		os.newMessage.Wait()
 	}
+}
+
+// firstAfterLocked returns the first message whose id is greater than id.
+// os.messagesMu must be held.
+func (os *OutputStream) firstAfterLocked(id uint64) (*messageBatch, bool) {
+	if id == math.MaxUint64 {
+		return nil, false
+	}
+	var key [8]byte
+	binary.BigEndian.PutUint64(key[:], id+1)
+	i := os.db.NewIterator(&util.Range{
+		Start: key[:],
+		Limit: nil,
+	}, nil)
+	defer i.Release()
+	if !i.First() {
+		return nil, false
+	}
+	return unmarshalMessageBatch(i.Value()), true
 }
 
 // InterruptGetNext interrupts any running GetNext() calls so that they return
